@@ -81,6 +81,24 @@ func VerifAttemptAt(re *Regexp, rt []rune, pos, textstart int, useQuick bool) (*
 	return nil, nil
 }
 
+// VerifAttemptAtEx is VerifAttemptAt that also reports where the execution left the scan
+// position (after a failed execution: the position the scan loop would resume from before its
+// bump, i.e. the bump-along update; after a successful one: the match's end in scan direction).
+func VerifAttemptAtEx(re *Regexp, rt []rune, pos, textstart int, useQuick bool) (*Match, int, error) {
+	r := re.getRunner()
+	defer re.putRunner(r)
+	r.verifSetup(rt, textstart, useQuick)
+	r.Runtextpos = pos
+	if err := executeDefault(r); err != nil {
+		return nil, r.Runtextpos, err
+	}
+	after := r.Runtextpos
+	if r.runmatch.matchcount[0] > 0 {
+		return r.tidyMatch(false), after, nil
+	}
+	return nil, after, nil
+}
+
 // VerifNaiveScan attempts the program at every position in scan order starting at start (one
 // further when prevLen == 0, as FindNextMatch does after an empty match), each attempt from a
 // fresh interpreter state, with all search acceleration disabled. \G is bound to textstart.
